@@ -180,14 +180,16 @@ func buildJobs(seed int64, n int, repoWarriors string) ([]job, []*gmars.WarriorD
 			} else if k%40 == 5 {
 				// a core larger than every preset, reused over several rounds
 				j.bcfg = simCfg{M: 9000, P: 3, C: 12, RL: 9000, WL: 9000}
-				for i := range j.offs {
-					j.offs[i] = 8990 - 70*i
-				}
 			}
 			nw := 1 + r.Intn(3)
 			for i := 0; i < nw; i++ {
 				j.ws = append(j.ws, r.Intn(len(shared)))
 				j.offs = append(j.offs, r.Intn(m))
+			}
+			if j.bcfg.M == 9000 {
+				for i := range j.offs {
+					j.offs[i] = 8990 - 70*i // near the top of the big core
+				}
 			}
 			jobs = append(jobs, j)
 		}
